@@ -40,11 +40,22 @@ def parseBody (s : String) : Option Bytes :=
     | [l, sd] => do pure (filler (← sd.toNat?) (← l.toNat?))
     | _ => none
 
+/-- `n` no reader, `w` a reader with WriteTo, `r<c>` a plain reader handing out c bytes per Read -/
+def parseReader (rk : String) (bodyLen : Nat) : Option BodyReader :=
+  if rk == "n" then some .none
+  else if rk == "w" then some .writerTo
+  else if rk.startsWith "r" then
+    (rk.drop 1).toString.toNat?.map fun c => .plain (List.replicate (bodyLen + 1) c) false
+  else none
+
 def wireModel : List String → String
-  | [id, ps, body, _rk] =>
+  | [id, ps, body, rk] =>
     match id.toNat?, parsePairs ps, parseBody body with
     | some id, some ps, some body =>
-      match clientWire id ps body with
+      match parseReader rk body.length with
+      | none => "bad-case"
+      | some rk =>
+      match clientWireVia id ps body rk with
       | .ok w => Driver.hex w
       | .error f => "PANIC:" ++ f.name
     | _, _, _ => "bad-case"
